@@ -153,10 +153,11 @@ WHERE v.id=$1`
 // ErrNotEnoughStorage is returned.
 func (s *Store) StoreSector(root types.Hash256, fn storage.StoreFunc) error {
 	var location storage.SectorLocation
+	var sectorID int64
 	var exists bool
 
-	err := s.transaction(func(tx *txn) error {
-		sectorID, err := insertSectorDBID(tx, root)
+	err := s.transaction(func(tx *txn) (err error) {
+		sectorID, err = insertSectorDBID(tx, root)
 		if err != nil {
 			return fmt.Errorf("failed to get sector id: %w", err)
 		}
@@ -199,9 +200,15 @@ func (s *Store) StoreSector(root types.Hash256, fn storage.StoreFunc) error {
 	// call fn with the location
 	if err := fn(location); err != nil {
 		rollbackErr := s.transaction(func(tx *txn) error {
-			_, err := tx.Exec(`UPDATE volume_sectors SET sector_id=null WHERE id=$1`, location.ID)
+			// only release the slot if it still holds the sector: it may have
+			// been cleared (and the usage decremented) while fn was running
+			res, err := tx.Exec(`UPDATE volume_sectors SET sector_id=null WHERE id=$1 AND sector_id=$2`, location.ID, sectorID)
 			if err != nil {
 				return fmt.Errorf("failed to rollback sector location: %w", err)
+			} else if n, err := res.RowsAffected(); err != nil {
+				return fmt.Errorf("failed to check rows affected: %w", err)
+			} else if n == 0 {
+				return nil
 			} else if err := incrementVolumeUsage(tx, location.Volume, -1); err != nil {
 				return fmt.Errorf("failed to update volume metadata: %w", err)
 			}
